@@ -340,6 +340,13 @@ var repairs = []repair{
 		})
 	}},
 	{name: "keyword-in-string", ast: func(a *hSchema) {
+		// strings in DEFAULTs and generated expressions (outside any CHECK)
+		eachDefault(a, func(c *hCol) {
+			c.Default = reStrKw.ReplaceAllString(c.Default, "'plain'")
+			c.Gen = reStrKw.ReplaceAllString(c.Gen, "'plain'")
+		})
+	}},
+	{name: "keyword-in-check-string", ast: func(a *hSchema) {
 		eachExpr(a, func(e string) string { return reStrKw.ReplaceAllString(e, "'plain'") })
 	}},
 	{name: "paren-or-comma-in-string", ast: func(a *hSchema) {
@@ -363,7 +370,12 @@ var repairs = []repair{
 		})
 	}},
 	{name: "dq-string-in-expr", ast: func(a *hSchema) {
-		eachExpr(a, func(e string) string { return strings.ReplaceAll(e, `"dq"`, "'dq'") })
+		eachExpr(a, func(e string) string {
+			for _, q := range []string{`"dq"`, `"(x"`, `")"`} {
+				e = strings.ReplaceAll(e, q, "'dq'")
+			}
+			return e
+		})
 	}},
 	{name: "fk-same-shape", ast: func(a *hSchema) {
 		for i := range a.Tables {
